@@ -329,10 +329,14 @@ pub fn op_parse(s: &str) -> String {
                     if depth > 8 { break; }
                 }
             }
-            if let Err(rep) = PointerBuf::parse(s.to_string()) {
+            // (not for lines of 32 KiB and more: miette 7.4's graphical handler itself pads with run-time widths, which `core::fmt` limits to
+            // `u16` — its panic there is miette's, with correct labels from this crate; the Report's own Display / Debug are formatted below for every length)
+            if s.len() < 32 * 1024 {
+              if let Err(rep) = PointerBuf::parse(s.to_string()) {
                 // rendered the way the crate's documentation shows: through miette's graphical handler
                 let h = miette::GraphicalReportHandler::new_themed(miette::GraphicalTheme::unicode_nocolor()).with_width(80);
                 let _ = h.render_report(&mut sink, &rep);
+              }
             }
             if let Err(rep) = PointerBuf::parse(s.to_string()) {
                 let _ = write!(sink, "{}", rep);
@@ -978,9 +982,26 @@ fn canonical_decimal(lit: &str) -> Option<String> {
 
 pub fn op_tok_int(ty: &str, dec: &str) -> Option<String> {
     let canon = canonical_decimal(dec)?;
+    let mut law_mut = Law::new();
     macro_rules! mk {
         ($t:ty) => {{
             let v: $t = dec.parse::<$t>().ok()?;
+            // the same integer as the token argument of every mutator and builder that takes `impl Into<Token>` (C11): the pointer
+            // gains exactly the token that spells the number in canonical decimal, and nothing panics
+            let want = format!("/{canon}");
+            let r = guard(|| {
+                let mut ok = true;
+                let mut b = PointerBuf::new(); b.push_back(v); ok &= b.as_str() == want;
+                let mut b = PointerBuf::new(); b.push_front(v); ok &= b.as_str() == want;
+                let mut b = PointerBuf::parse("/x").expect("valid"); ok &= b.replace(0, v).is_ok() && b.as_str() == want;
+                ok &= PointerBuf::from_tokens([v]).as_str() == want;
+                ok &= Pointer::root().with_trailing_token(v).as_str() == want && Pointer::root().with_leading_token(v).as_str() == want;
+                ok
+            });
+            match r {
+                None => law_mut.fail("a_mutator_panics_on_an_integer_token"),
+                Some(ok) => law_mut.ck(ok, "integer_token_through_a_mutator_is_not_its_decimal"),
+            }
             Token::from(v).encoded().to_string()
         }};
     }
@@ -1003,6 +1024,7 @@ pub fn op_tok_int(ty: &str, dec: &str) -> Option<String> {
     o.f("enc", &xh(&enc));
     let mut law = Law::new();
     law.ck(enc == canon, "not_canonical_decimal");
+    law.merge(&law_mut);
     o.law("law_decimal", &law);
     Some(o.finish())
 }
